@@ -11,9 +11,20 @@
 
    Definitions only: this file is extracted and run by the harness on real trees.
 
+   Comments.  A comment may stand between any two tokens; tree-sitter hands it out as a named child
+   ([block_comment] / [line_comment]) of the construct it is written in, and a comment standing
+   after a child that carries a field name is reported under that field name too.  The parts of a
+   construct are its children that are not comments ([parts], [named_parts]).  The shapes of if /
+   while / yield / assert / return statements and of a variable declarator describe the PARTS, so
+   that comments may stand anywhere between them ([comments_ok]: a comment reported under a field
+   name stands after a part carrying that field name, so that the first child carrying a field
+   name is a part); blocks, argument lists and type lists allow comments among their named
+   children, and their specifications list the named children that are not comments.
+
    Where a shape is stricter than the grammar (each because the builder's attribute would otherwise
    differ from what is written, or because the case is out of scope):
-     - exact child lists: no interleaved comment / ERROR / MISSING children;
+     - exact child lists: no interleaved ERROR / MISSING children, and (except where stated above)
+       no interleaved comments;
      - method_invocation: the name is an [identifier]; no type_arguments, no "super." segment;
        side condition [call_side]: an identifier receiver has non-empty text;
      - object_creation_expression: the type is a (scoped_)type_identifier (a generic type gives an
@@ -49,6 +60,24 @@ Definition child_of_type (n : cst) (t : bytes) : option cst := find (is_ty t) (c
 
 Definition is_nil {A} (l : list A) : bool := match l with [] => true | _ => false end.
 Definition olist {A} (o : option A) : list A := match o with Some x => [x] | None => [] end.
+
+(* ---------- comments ---------- *)
+(* the named children that are not comments *)
+Definition named_parts (n : cst) : list cst := filter not_comment (named_kids n).
+
+(* a comment reported under a field name stands after a part ([seen]: the parts met so far, latest
+   first) carrying that field name *)
+Fixpoint comments_after (seen ks : list cst) : bool :=
+  match ks with
+  | [] => true
+  | k :: r =>
+      if not_comment k then comments_after (k :: seen) r
+      else match c_field k with
+           | None => true
+           | Some f => existsb (has_field f) seen
+           end && comments_after seen r
+  end.
+Definition comments_ok (n : cst) : bool := comments_after [] (c_kids n).
 
 (* an anonymous token's text is its type *)
 Definition tok_text_ok (src : bytes) (k : cst) : bool := bytes_eqb (content src k) (c_ty k).
@@ -91,10 +120,11 @@ Definition java_binops : list (bytes * bytes) :=
 Definition binop_kind (op : bytes) : option bytes :=
   match lookup_binop op with Some (_, k) => Some k | None => None end.
 
-(* ---------- if_statement: "if" condition: consequence: ("else" alternative:)? ---------- *)
+(* ---------- if_statement: "if" condition: consequence: ("else" alternative:)? ----------
+   (comments anywhere between the parts) *)
 Definition if_shape (n : cst) : bool :=
-  is_ty "if_statement" n &&
-  match c_kids n with
+  is_ty "if_statement" n && comments_ok n &&
+  match parts n with
   | [k; c; t] => tok "if" k && has_field "condition" c && has_field "consequence" t
   | [k; c; t; el; e] =>
       tok "if" k && has_field "condition" c && has_field "consequence" t
@@ -105,10 +135,10 @@ Definition if_shape (n : cst) : bool :=
 Definition if_spec (src : bytes) (n : cst) : stmt :=
   SIf (field_text_opt src n "condition") (field_text src n "consequence") (field_text src n "alternative").
 
-(* ---------- while_statement: "while" condition: body: ---------- *)
+(* ---------- while_statement: "while" condition: body: (comments anywhere between the parts) ---------- *)
 Definition while_shape (n : cst) : bool :=
-  is_ty "while_statement" n &&
-  match c_kids n with
+  is_ty "while_statement" n && comments_ok n &&
+  match parts n with
   | [k; c; b] => tok "while" k && has_field "condition" c && has_field "body" b
   | _ => false
   end.
@@ -179,45 +209,46 @@ Definition label_spec (src : bytes) (n : cst) : bytes :=
 Definition break_spec (src : bytes) (n : cst) : stmt := SBreak (label_spec src n).
 Definition continue_spec (src : bytes) (n : cst) : stmt := SContinue (label_spec src n).
 
-(* ---------- yield_statement: "yield" e ";" ---------- *)
+(* ---------- yield_statement: "yield" e ";" (comments anywhere between the parts) ---------- *)
 Definition yield_shape (n : cst) : bool :=
   is_ty "yield_statement" n &&
-  match c_kids n with
+  match parts n with
   | [k; e; s] => tok "yield" k && c_named e && tok ";" s
   | _ => false
   end.
 Definition yield_spec (src : bytes) (n : cst) : stmt :=
-  SYield (match named_kids n with e :: _ => content src e | [] => [] end).
+  SYield (match named_parts n with e :: _ => content src e | [] => [] end).
 
 (* ---------- assert_statement: "assert" e (":" m)? ";" ----------
    The builder keeps the detail message only when it is a string literal; the specification states
-   exactly that (a non-literal message is dropped: pinned behaviour of the builder). *)
+   exactly that (a non-literal message is dropped: pinned behaviour of the builder).
+   Comments anywhere between the parts. *)
 Definition assert_shape (n : cst) : bool :=
   is_ty "assert_statement" n &&
-  match c_kids n with
+  match parts n with
   | [k; e; s] => tok "assert" k && c_named e && tok ";" s
   | [k; e; c; m; s] => tok "assert" k && c_named e && tok ":" c && c_named m && tok ";" s
   | _ => false
   end.
 Definition assert_spec (src : bytes) (n : cst) : stmt :=
-  match named_kids n with
+  match named_parts n with
   | [e] => SAssert (content src e) None
   | [e; m] => SAssert (content src e) (if is_ty "string_literal" m then Some (content src m) else None)
   | _ => SAssert [] None
   end.
 
-(* ---------- return_statement: "return" e? ";" ---------- *)
+(* ---------- return_statement: "return" e? ";" (comments anywhere between the parts) ---------- *)
 Definition return_shape (n : cst) : bool :=
   is_ty "return_statement" n &&
-  match c_kids n with
+  match parts n with
   | [k; s] => tok "return" k && tok ";" s
   | [k; e; s] => tok "return" k && c_named e && tok ";" s
   | _ => false
   end.
 Definition return_spec (src : bytes) (n : cst) : stmt :=
-  SReturn (match named_kids n with e :: _ => Some (content src e) | [] => None end).
+  SReturn (match named_parts n with e :: _ => Some (content src e) | [] => None end).
 
-(* ---------- block: "{" stmt* "}" ---------- *)
+(* ---------- block: "{" stmt* "}" (comments among the statements are named children) ---------- *)
 Fixpoint block_tail (ks : list cst) : bool :=
   match ks with
   | [] => false
@@ -237,12 +268,12 @@ Definition block_braces (src : bytes) (n : cst) : bool :=
                && match rev r with kl :: _ => bytes_eqb (content src kl) "}" | [] => false end
   | [] => false
   end.
-(* the statements of the block, in order *)
-Definition block_stmts (src : bytes) (n : cst) : list bytes := List.map (content src) (named_kids n).
+(* the statements of the block, in order (comments are not statements) *)
+Definition block_stmts (src : bytes) (n : cst) : list bytes := List.map (content src) (named_parts n).
 (* what the builder stores (defect D29: the brace tokens are listed as statements) *)
 Definition block_spec (src : bytes) (n : cst) : stmt := SBlock (["{"] ++ block_stmts src n ++ ["}"]).
 
-(* ---------- argument_list: "(" (e ("," e)* )? ")" ---------- *)
+(* ---------- argument_list: "(" (e ("," e)* )? ")" (comments among the arguments are named children) ---------- *)
 Fixpoint args_tail (ks : list cst) : bool :=
   match ks with
   | [] => false
@@ -290,7 +321,7 @@ Definition strip_quotes (s : bytes) : bytes := trim_suffix """" (trim_prefix """
 Definition call_args_spec (src : bytes) (n : cst) : list bytes :=
   match child_by_field n "arguments" with
   | Some a => List.map (fun x => if is_ty "string_literal" x then strip_quotes (content src x)
-                                 else content src x) (named_kids a)
+                                 else content src x) (named_parts a)
   | None => []
   end.
 
@@ -309,7 +340,7 @@ Definition new_shape (n : cst) : bool :=
 Definition new_spec (src : bytes) (n : cst) : bytes * list (bytes * bytes) :=
   (field_text src n "type",
    match child_by_field n "arguments" with
-   | Some a => List.map (fun x => (c_ty x, content src x)) (named_kids a)
+   | Some a => List.map (fun x => (c_ty x, content src x)) (named_parts a)
    | None => []
    end).
 
@@ -428,21 +459,22 @@ Definition class_super_spec (src : bytes) (n : cst) : bytes :=
               end
   | None => []
   end.
-(* the implemented interface types, in order *)
+(* the implemented interface types, in order (comments in the list are not types) *)
 Definition class_ifaces_spec (src : bytes) (n : cst) : list bytes :=
   match child_of_type n "super_interfaces" with
   | Some s => match child_of_type s "type_list" with
-              | Some tl => List.map (content src) (named_kids tl)
+              | Some tl => List.map (content src) (named_parts tl)
               | None => []
               end
   | None => []
   end.
 
 (* ---------- local_variable_declaration / field_declaration with one declarator ----------
-   modifiers? type: declarator:variable_declarator(name:identifier ("=" value:)?) ";" *)
+   modifiers? type: declarator:variable_declarator(name:identifier ("=" value:)?) ";"
+   (comments anywhere between the parts of the declarator) *)
 Definition declarator_shape (d : cst) : bool :=
-  is_ty "variable_declarator" d &&
-  match c_kids d with
+  is_ty "variable_declarator" d && comments_ok d &&
+  match parts d with
   | [nm] => has_field "name" nm && is_ty "identifier" nm
   | [nm; e; v] => has_field "name" nm && is_ty "identifier" nm && tok "=" e
                   && has_field "value" v
